@@ -810,6 +810,7 @@ fn exec_call_inner(ctx: &mut Ctx, idx: usize, c: &Value, keep: &mut Option<Owned
         (_, "capi_copy") => crate::capi_cases::copy_case(ctx.root_raw, c),
         (_, "errtab_concurrent") => crate::errtab::concurrent(c),
         (_, "errtab_birthday") => crate::errtab::birthday(c),
+        (_, "errtab_race_same") => crate::errtab::race_same(c),
         _ => json!({"ok": false, "skip": format!("unknown op {api}/{op}")}),
     }
 }
